@@ -359,6 +359,7 @@ func runC14(c *Ctx) {
 	c.Borrow("C04", map[string]string{"C04.reg-before-walk": "C14.attach-order"}, "the deletes a Reset/Remove announces reach a subscriber only through its registration: a stream that walks the cache before it registers is sent the leaves and never the announcement that removed them (and a removed target's stream is never ended)")
 	walkExcl(c, "C14.walk-excl")
 	metaExport(c, "C14.meta-export")
+	singleRegistry(c, "C14.single-registry")
 	// ---- meta init
 	c.Rule("C14.meta-init", "metadata.Clear ranges over the bool, int and string registries and calls ResetEntry for every key; ResetEntry has an arm for each kind and an error for unknown entries")
 	{
